@@ -334,6 +334,21 @@ class ScriptGen:
             maxvar = 0 if maxvar is not None else None
         return False
 
+    def op_emplaceat(self, s, need_slack=True):
+        """emplace(position, args...) on a list without VaryingSize parameter; with need_slack the
+        vector keeps room for one more element afterwards (the call shifts the elements through
+        the bytes behind data_end(): the recorded finding emplace-position-scratch)"""
+        v = self.slots[s]
+        if v is None or v.null or has_varying(self.L) or len(v.elems) + (2 if need_slack else 1) > v.cap:
+            return False
+        tup = self.rand_tuple(v.fixed)
+        pos = self.rng.choice([0, len(v.elems), self.rng.randrange(0, len(v.elems) + 1)])
+        v.elems.insert(pos, tup)
+        self.lines.append(self.emplace_line(s, tup).replace("emplace %d" % s, "emplaceat %d %d" % (s, pos), 1))
+        self.stat("emplaceat")
+        self.stat("emplaceat-%s" % ("begin" if pos == 0 and len(v.elems) > 1 else "end" if pos == len(v.elems) - 1 else "middle"))
+        return True
+
     def op_popback(self, s):
         v = self.slots[s]
         if v is None or v.null or not v.elems:
@@ -446,6 +461,37 @@ def gen_history(L, K, rng, nsteps, allow_overlap=False):
             break
         if rng.random() < 0.1:
             g.lines.append("junk %d" % rng.choice([0, 85, 170, 255]))
+    return g.finish(), g.stats
+
+
+def gen_emplace_at(L, K, rng, nsteps, noslack=False):
+    """single-vector history with emplace(position, ...) among the other operations, on a list
+    without VaryingSize parameter and with trivially relocatable types.  noslack: the history
+    ENDS in an emplace(position) that fills the vector (known finding emplace-position-scratch)"""
+    g = ScriptGen(L, K, rng)
+    if rng.random() < 0.4:
+        g.lines.append("pagemode 2")
+        g.stat("fence-pages")
+    g.op_mkvec(0, cap=rng.choice([2, 3, 4, 5, 8]))
+    ops = [(g.op_emplace, 6), (g.op_emplaceat, 8), (g.op_popback, 2), (g.op_erase, 2), (g.op_eraserange, 1), (g.op_clear, 1), (g.op_reserve, 2)]
+    tot = sum(w for _, w in ops)
+    for _ in range(nsteps):
+        r = rng.randrange(tot)
+        for f, w in ops:
+            if r < w:
+                if not f(0):
+                    (g.op_reserve(0, True) if f in (g.op_emplace, g.op_emplaceat) else g.op_emplace(0))
+                break
+            r -= w
+        if rng.random() < 0.1:
+            g.lines.append("junk %d" % rng.choice([0, 85, 170, 255]))
+    if noslack:
+        v = g.slots[0]
+        while len(v.elems) + 1 < v.cap:
+            g.op_emplace(0)
+        if len(v.elems) + 1 != v.cap or not g.op_emplaceat(0, need_slack=False):
+            return None
+        g.stat("emplaceat-noslack(known finding)")
     return g.finish(), g.stats
 
 
@@ -765,11 +811,12 @@ def gen_empty(L, K, rng):
         sz = esize(L, v.fixed)
         per = sum(p.size for p in L if p.kind == VARYING)
         b = per * n * rng.choice([0, 1, 3]) if per else 0
-        v.cap, v.budget, v.null = max(v.cap, n) if n > v.cap else v.cap, b if n > v.cap else v.budget, False if n > v.cap else v.null
-        if n > 0:
-            newblock = units(L, (needed(n, b, sz) if has_varying(L) else b + sz[1] * n)) * SA(L)
-            if n >= v.cap:
-                v.block = newblock
+        # reserve(n, b) does something only when n EXCEEDS the capacity (C10): with n == capacity
+        # the block stays what it was, whatever b is
+        grows = n > v.cap
+        v.cap, v.budget, v.null = max(v.cap, n) if grows else v.cap, b if grows else v.budget, False if grows else v.null
+        if grows:
+            v.block = units(L, (needed(n, b, sz) if has_varying(L) else b + sz[1] * n)) * SA(L)
         g.lines.append("reserve %d %d %d" % (s, n, b))
         if v.null:
             continue
